@@ -35,7 +35,7 @@ SECW_PLURAL = {'Sec ': 'Secs ', 'Section ': 'Sections ', 'Sec. ': 'Secs. ', 'Sec
 ANDW = [' and ', ', ', ' & ', ' AND ', ' And ']
 THRU = [' - ', '-', ' through ', ' thru ', ' to ', ' – ', ' Through ', ' THRU ', ' To ']
 CONN = [' of ', ' in ', ', ']
-SEP = [', ', '; ', '\n', ' ']
+SEP = [', ', '; ', '\n', ' ', ', \n\n', ';\n']      # incl. a paragraph break after the comma
 COLON = [': ', ' : ', ':\n', ' :\n', ':']
 DIRS = [('N', 'W'), ('S', 'E'), ('N', 'E'), ('S', 'W')]
 # (twp, rge) replacing the structure's own numbers, per Twp/Rge group position
@@ -55,6 +55,7 @@ BLOCKS = [
     'Lots 1 and 2,\nS/2NE/4',
     'Lot 4 and all accretions thereof',
     'NE/4, being located in the Powder River Basin',
+    '40 acres in the NE/4',            # a block that starts with a number (directly after 'Sec 14: ')
 ]
 
 DIMS = {
@@ -150,6 +151,11 @@ def render(layout, struct, r):
                     return None
             block = BLOCKS[bi % len(BLOCKS)]
             bi += 1
+            if block[0].isdigit() and layout in ('TR_desc_S', 'desc_STR') and (parts or out):
+                # a block that starts with a number, written directly behind the previous block's section number and a
+                # comma / semicolon / blank ('... of Sec 14, 40 acres ...'), *is* a section list by the documented syntax:
+                # not an unambiguous rendering
+                return None
             stxt, nums = secgroup_text(kind, a, b, r)
             for n in nums:
                 exp.append((f"{trs}{n:02d}", block))
